@@ -75,8 +75,8 @@ fn to_py(core: &Core, ind: usize) -> String {
         }
         Core::ExpressionType { expr, ty } => format!("{}: {}", to_py(expr, ind), to_py(ty, ind)),
         Core::DocStr { string } => format!("\"\"\"{string}\"\"\""),
-        Core::Str { string } => format!("\"{string}\""),
-        Core::FStr { string } => format!("f\"{string}\""),
+        Core::Str { string } => format!("\"{}\"", one_line(string)),
+        Core::FStr { string } => format!("f\"{}\"", one_line(string)),
         Core::Int { int } => decimal(int),
         Core::ENum { num, exp } => format!("({} * 10 ** {})", decimal(num), decimal(exp)),
         Core::Float { float } => float.clone(),
@@ -454,6 +454,11 @@ fn precedence(core: &Core) -> u8 {
         Core::Pow { .. } => POW,
         _ => 17,
     }
+}
+
+/// A string of Mamba may span lines, a string of Python delimited by one quote may not.
+fn one_line(string: &str) -> String {
+    string.replace('\n', "\\n").replace('\r', "\\r")
 }
 
 fn is_builder(elements: &[Core]) -> bool {
